@@ -144,7 +144,6 @@ func (r *Reader) cleanState(b byte) {
 		r.sysexBf = nil
 		r.sysexlen = 0
 		r.statusByte = 0
-		r.OnMsg([]byte{b, 0, 0}, r.ts_ms)
 
 	// here we clear for System Common Category messages
 	case b > 0xF0 && b < 0xF7:
